@@ -14,7 +14,7 @@ META = {
         "so a field extending past the end makes the shift count negative, which Python rejects (ValueError); D2 that exception is not swallowed: no handler in the decoding routines, "
         "the driver's handler catches it and every path of the handler raises a library exception, the constructor does not catch it; D3 the bit length and the integer image are both "
         "derived from the same stored payload (8*len, int.from_bytes big) and are never reassigned or accessed elsewhere; D4 linear offset threading (an offset reset would re-read earlier "
-        "bits instead of failing) and exact repeat counts (C03-D6: a group that ends early when the payload runs out hides a truncation); widths are non-negative ints (table typing); shared: identity bits (C15-D1) and table dispatch (C10-D4), since a truncated payload must still reach its own definition. Truncations that remove only padding bits are outside the property's quantifier."
+        "bits instead of failing) and exact repeat counts (C03-D6: a group that ends early when the payload runs out hides a truncation); widths are non-negative ints (table typing); shared: the bit-length polynomials of the definitions against the standards (C10-D5: a definition shorter than the standard accepts truncated messages), identity bits (C15-D1) and table dispatch (C10-D4), since a truncated payload must still reach its own definition. Truncations that remove only padding bits are outside the property's quantifier."
     ),
     "trusted": ["CPython ast parser", "Python semantics: a negative shift count raises ValueError", "sa/symeval.py, sa/domains.py"],
 }
@@ -83,6 +83,9 @@ def run(eng, ctx):
 
     SH.identity_bits(eng, ctx, "C15.D1")
     TR.dispatch(eng, ctx, "C10.D4")
+    # "a complete message truncated by one or more whole bytes ... is rejected": complete by the standard's layout - a definition that asks for
+    # fewer bits than the standard gives the type accepts truncated messages without reading a bit too far (bit-length polynomials, C10-D5, shared)
+    TR.lengths(eng, ctx, "C10.D5")
     # "the fields, repeat counts and masks it announces": a derived repeat count that is not the population count of the mask in THIS payload
     # (taken from a cache, from another layer, from a wrong formula) lets a truncated payload through
     SH.derived_counts(eng, ctx, "C03.D9", labels=False)
